@@ -38,3 +38,5 @@ Example C03_nonvacuous :
     /\ beval (W_ex []) q (VColl KList []) = beval (W_ex []) p (VColl KList [])
     /\ beval (W_ex []) q (VColl KList [VQ KInt 1 true; VQ KInt 5 true]) = true.
 Proof. cbv zeta. split; [reflexivity|]. eexists. split; [vm_compute; reflexivity|]. vm_compute. auto. Qed.
+
+Print Assumptions C03_nonvacuous.
